@@ -61,6 +61,10 @@ def enc(o):
             return {"__f__": repr(f)}
         return f
     if isinstance(o, np.ndarray):
+        if o.dtype == np.float32:
+            return {"__nd32__": enc(o.astype(float).tolist())}
+        if o.dtype.kind in "iu":
+            return {"__ndint__": enc(o.tolist())}
         return {"__nd__": enc(o.tolist()), "dtype": "str" if o.dtype.kind in "US" else "num"}
     if isinstance(o, tuple):
         return {"__tuple__": [enc(x) for x in o]}
@@ -93,6 +97,10 @@ def dec(o):
             return float(o["__f__"])
         if "__nd__" in o:
             return np.array(dec(o["__nd__"]))
+        if "__nd32__" in o:
+            return np.array(dec(o["__nd32__"]), dtype=np.float32)
+        if "__ndint__" in o:
+            return np.array(dec(o["__ndint__"]), dtype=np.int64)
         if "__tuple__" in o:
             return tuple(dec(x) for x in o["__tuple__"])
         if "__set__" in o:
